@@ -60,6 +60,9 @@ def h_res(cfg):
             r['state'] = 'released'
 
     def on_interrupt(u, r, it):
+        if it.cause == 'external':
+            cover('external-interrupt')
+            return
         exp = evicted.pop(u, None)
         c = it.cause
         check('c06.preempted-cause', exp is not None and isinstance(c, Preempted), 'user %d' % u)
@@ -81,7 +84,10 @@ def h_res(cfg):
         return arrivals[k]
 
     def user(u, script):
-        yield env.timeout(arrival(u))
+        try:
+            yield env.timeout(arrival(u))
+        except Interrupt:
+            return              # interrupted from outside before it ever asked for the resource
         if script in ('hold', 'rel2', 'holdrel'):
             r = mk_request(u)
             try:
@@ -89,6 +95,9 @@ def h_res(cfg):
                 yield env.timeout(num('h%d' % u))
             except Interrupt as it:
                 on_interrupt(u, r, it)
+                if not r['ev'].triggered:
+                    r['ev'].cancel()
+                    r['state'] = 'cancelled'
             release(r)              # releasing after an eviction = releasing a non-user: harmless
             if script == 'rel2':
                 snap = (res.count, list(res.users), list(res.queue))
@@ -140,13 +149,25 @@ def h_res(cfg):
                 cover('with-exit-by-exception')
             except Interrupt as it:
                 on_interrupt(u, r, it)
-            if r is not None and r['state'] == 'using':
-                r['state'] = 'released'
+            if r is not None:
+                # leaving the with-block gives the slot back (granted) or withdraws the request (still waiting),
+                # also when the grant happened in this very instant and has not been processed yet
+                if r['ev'].triggered and r['state'] in ('waiting', 'using'):
+                    r['state'] = 'released'
+                elif r['state'] == 'waiting':
+                    r['state'] = 'cancelled'
             cover('with-exit')
 
     steps = [0]
     for u, script in enumerate(scripts):
         procs[u] = env.process(user(u, script))
+    if cfg.get('interrupt') is not None:
+        def interrupter():
+            yield env.timeout(num('ti'))
+            tgt = procs[cfg['interrupt']]
+            if tgt.is_alive:
+                tgt.interrupt('external')
+        env.process(interrupter())
 
     def after_step():
         check('c06.count<=capacity', res.count <= cap, res.count)
@@ -250,6 +271,13 @@ def jobs(tier, seed):
             js.append({'harness': 'res', 'weight': 100,
                        'cfg': {'kind': kind, 'capacity': 2, 'scripts': ['hold', 'hold', 'hold'], 'sorts': 'real',
                                'fixed': {'0': [2, 1], '1': [2, 1], '2': [1, 1]}, 'same_arrival': [0, 1]}})
+        # a user of a with-block interrupted from outside at a symbolic instant (before, at and after its grant)
+        for sc, tgt in ((('hold', 'with', 'hold'), 1), (('hold', 'with'), 1), (('with', 'with', 'hold'), 1)):
+            if kind == 'preempt' and len(sc) == 3 and tier == 'quick':
+                continue
+            js.append({'harness': 'res', 'weight': 200,
+                       'cfg': {'kind': kind, 'capacity': 1, 'scripts': list(sc), 'sorts': 'int', 'interrupt': tgt},
+                       'opts': {'max_paths': 30000 if tier == 'quick' else 150000}})
         for ci, (sc, cap) in enumerate(triples):
             js.append({'harness': 'res', 'weight': 400 if kind == 'preempt' else 150,
                        'cfg': {'kind': kind, 'capacity': cap, 'scripts': list(sc), 'sorts': 'int' if ci % 2 else 'real'},
@@ -263,7 +291,7 @@ META = {
     'required_labels': ['c06.count<=capacity', 'c06.grant-in-queue-order', 'c06.no-idle-slot',
                         'c06.users-are-exactly-the-holders', 'c06.evict-only-strictly-worse', 'c06.preempted-by',
                         'c06.preempted-usage-since', 'c06.double-release-harmless', 'c06.foreign-release-harmless'],
-    'required_covers': ['nontrivial', 'granted', 'cancelled', 'evicted', 'preempted', 'with-exit-by-exception'],
+    'required_covers': ['nontrivial', 'granted', 'cancelled', 'evicted', 'preempted', 'with-exit-by-exception', 'external-interrupt'],
     'bounds': {'quick': 'Resource / PriorityResource / PreemptiveResource, capacity 1-2, 2-3 users with scripts from {hold, give up after w '
                         '(cancel), with-block, with-block left by exception, double release, release of a cancelled request}; all '
                         'instants, priorities (Int) and preempt flags symbolic',
